@@ -188,6 +188,14 @@ class Slot:
         """the *real* wrapper TU compiled natively (hooks off) for replay"""
         o = os.path.join(unit["dir"], "real-%s%s.o" % (compiler.replace("+", "p"), "-san" if sanitize else ""))
         if os.path.exists(o): return o
+        lk = self.locked("obj-" + hashlib.sha256(o.encode()).hexdigest()[:16])
+        try:
+            return self._native_object(unit, compiler, sanitize, o)
+        finally:
+            lk.close()
+
+    def _native_object(self, unit, compiler, sanitize, o):
+        if os.path.exists(o): return o
         fl = [compiler, "-std=c++" + unit["std"].replace("2b", "2b" if compiler.startswith("clang") else "23"), "-O1", "-g", "-w", "-I" + os.path.join(REPO, "sbepp/src")]
         fl += ["-I" + i for i in unit["incs"]]
         fl.append({"checked": "-DSBEPP_ENABLE_ASSERTS_WITH_HANDLER", "unchecked": "-DSBEPP_DISABLE_ASSERTS"}[unit["mode"]])
@@ -384,12 +392,21 @@ def native_replay(slot, h, inputs, units, compiler="g++", sanitize=True, witness
     ho = os.path.join(d, "harness-%s.o" % compiler.replace("+", "p"))
     rc, so, se, dt = sh([cc, "-O0", "-g", "-w", "-I", ENGINE] + defs + san + ["-c", os.path.join(d, "harness.c"), "-o", ho], timeout=300)
     if rc != 0: raise EngineError("native harness build failed: " + se[-2000:])
-    rt = os.path.join(d, "native_rt.o")
-    rc, so, se, dt = sh([cc, "-O0", "-g", "-w", "-I", ENGINE] + san + ["-c", os.path.join(ENGINE, "native_rt.c"), "-o", rt], timeout=300)
-    if rc != 0: raise EngineError("native rt build failed: " + se[-2000:])
-    hd = os.path.join(d, "native_handler.o")
-    rc, so, se, dt = sh([compiler, "-O0", "-g", "-w", "-c", os.path.join(ENGINE, "native_handler.cpp"), "-o", hd] + san, timeout=300)
-    if rc != 0: raise EngineError("native handler build failed: " + se[-2000:])
+    tag = compiler.replace("+", "p") + ("-san" if sanitize else "")
+    rt = slot.path("native", "native_rt-%s.o" % tag)
+    hd = slot.path("native", "native_handler-%s.o" % tag)
+    lk = slot.locked("native-" + tag)
+    try:
+        if not os.path.exists(rt):
+            rc, so, se, dt = sh([cc, "-O0", "-g", "-w", "-I", ENGINE] + san + ["-c", os.path.join(ENGINE, "native_rt.c"), "-o", rt + ".tmp"], timeout=300)
+            if rc != 0: raise EngineError("native rt build failed: " + se[-2000:])
+            os.rename(rt + ".tmp", rt)
+        if not os.path.exists(hd):
+            rc, so, se, dt = sh([compiler, "-O0", "-g", "-w", "-c", os.path.join(ENGINE, "native_handler.cpp"), "-o", hd + ".tmp"] + san, timeout=300)
+            if rc != 0: raise EngineError("native handler build failed: " + se[-2000:])
+            os.rename(hd + ".tmp", hd)
+    finally:
+        lk.close()
     rc, so, se, dt = sh([compiler, "-o", exe, ho, rt, hd] + objs + san, timeout=300)
     if rc != 0: raise EngineError("native link failed: " + se[-3000:])
     env = dict(os.environ, VERIF_INPUTS=inp, ASAN_OPTIONS="detect_leaks=0:abort_on_error=0:exitcode=66", UBSAN_OPTIONS="print_stacktrace=1:exitcode=67")
